@@ -155,6 +155,12 @@ func (c *Ctx) Count(key string) {
 	c.mu.Unlock()
 }
 
+func (c *Ctx) CountN(key string, n int) {
+	c.mu.Lock()
+	c.dist[key] += n
+	c.mu.Unlock()
+}
+
 // Fail records a violation of the property's oracle on the implementation.
 func (c *Ctx) Fail(key, op, impl, what string) {
 	c.mu.Lock()
